@@ -369,9 +369,17 @@ def run_env_schedule(yardl, home, root, hist):
                 res["json_at_drop"] = snapshot(os.path.join(root, "out", "json"))
                 res["settled_before_drop"] = tok["settled"]
                 open(os.path.join(mdir, "_package.yml"), "w").write(manifest())
-            elif k in ("repair", "save"):
-                open(os.path.join(ldir, "_package.yml"), "w").write(ENV_LIB_MANIFEST)
-                open(os.path.join(mdir, "_package.yml"), "w").write(manifest())
+            elif k == "repair":
+                # the repair is made where the fault is (WatchEnv.tla Repair): faults of the nested package by saving files of the nested
+                # package only - its manifest and a new version of one of its model files, so that the output depends on the repair
+                faults = set(tok.get("faults") or [])
+                if faults & {"nested_fetch_error", "nested_manifest_error"}:
+                    open(os.path.join(ldir, "lextra.yml"), "w").write(extra_text(version, True, "imp"))
+                    open(os.path.join(ldir, "_package.yml"), "w").write(ENV_LIB_MANIFEST)
+                if faults & {"model_error", "main_fetch_error"} or not faults:
+                    open(os.path.join(mdir, "_package.yml"), "w").write(manifest())
+                    open(os.path.join(mdir, "extra.yml"), "w").write(extra_text(version))
+            elif k == "save":
                 open(os.path.join(mdir, "extra.yml"), "w").write(extra_text(version))
         ok = settle(timeout=25, quiet=1.2)
         res["alive"] = proc.poll() is None
@@ -568,7 +576,14 @@ def main():
                 seen_k.add(k)
                 first.append(h)
         drops = [h for h in envs if any(t["kind"] == "drop_json" and t["settled"] for t in h) and h[-1]["kind"] == "save"][:4]
-        envs = first[:12] + [h for h in drops if h not in first[:12]]
+        # a fault of the nested package whose failed regeneration has completed, then its repair as the last edit: only the nested
+        # package's directory is saved, nothing follows that could make up for a lost event
+        ends, seen_f = [], set()
+        for h in envs:
+            if len(h) >= 2 and h[-1]["kind"] == "repair" and h[-1]["settled"] and h[-2]["kind"].startswith("nested_") and (h[-2]["kind"], len(h)) not in seen_f:
+                seen_f.add((h[-2]["kind"], len(h)))
+                ends.append(h)
+        envs = first[:12] + [h for h in drops + ends[:6] if h not in first[:12]]
 
     def envwork(arg):
         i, h = arg
